@@ -16,6 +16,7 @@ package main
 
 import (
 	"bytes"
+	"errors"
 	"flag"
 	"fmt"
 	"io"
@@ -133,17 +134,35 @@ func parseNum(s string) uint64 {
 
 // ---------------------------------------------------------------- reader
 
+// chunkReader is an io.Reader that uses the freedom of the io.Reader contract: it delivers its
+// data in the given chunk sizes (cycled; size 0 = a (0, nil) read), reports the end by io.EOF or
+// by another error (finalErr), either by a separate (0, err) read or together with the last
+// bytes (tog).  After it has reported its final error it reports io.EOF.
 type chunkReader struct {
 	data      []byte
 	chunks    []int
 	i         int
-	exhausted bool // reported io.EOF at least once
+	tog       bool
+	finalErr  error
+	reported  bool
+	exhausted bool // reported its final error at least once
+}
+
+var errInjected = errors.New("verif: injected read error")
+
+func (c *chunkReader) final() error {
+	c.exhausted = true
+	if !c.reported && c.finalErr != nil {
+		c.reported = true
+		return c.finalErr
+	}
+	c.reported = true
+	return io.EOF
 }
 
 func (c *chunkReader) Read(p []byte) (int, error) {
 	if len(c.data) == 0 {
-		c.exhausted = true
-		return 0, io.EOF
+		return 0, c.final()
 	}
 	n := c.chunks[c.i%len(c.chunks)]
 	c.i++
@@ -155,6 +174,9 @@ func (c *chunkReader) Read(p []byte) (int, error) {
 	}
 	copy(p, c.data[:n])
 	c.data = c.data[n:]
+	if len(c.data) == 0 && c.tog {
+		return n, c.final()
+	}
 	return n, nil
 }
 
@@ -313,8 +335,22 @@ func c14Unmarshal(data []byte) string {
 		msg, err := capnp.Unmarshal(data)
 		a1 := totalAlloc()
 		// the property's predicate: memory proportional to the input (6 bytes per input byte
-		// for the segment table) plus the constant-size Message and arena header
-		aok := a1-a0 <= 6*uint64(len(data))+6*uint64(len(data))/8+1024
+		// for the segment table) plus the constant-size Message and arena header.
+		// runtime.MemStats.TotalAlloc is process-wide: an allocation of the runtime's own
+		// goroutines can land between the two readings.  Unmarshal is a pure function of its
+		// input, so the measurement is repeated and the smallest reading counts (an
+		// over-allocation of Unmarshal itself shows in every reading).
+		bound := 6*uint64(len(data)) + 6*uint64(len(data))/8 + 1024
+		delta := a1 - a0
+		for try := 0; try < 4 && delta > bound; try++ {
+			b0 := totalAlloc()
+			capnp.Unmarshal(data)
+			b1 := totalAlloc()
+			if b1-b0 < delta {
+				delta = b1 - b0
+			}
+		}
+		aok := delta <= bound
 		if err != nil {
 			return "err " + errClass(err, nil) + " " + bit(aok, "A")
 		}
@@ -324,7 +360,14 @@ func c14Unmarshal(data []byte) string {
 }
 
 func c14Decode(packed bool, max uint64, chunks []int, ops []string, stream []byte) string {
-	rd := &chunkReader{data: append([]byte(nil), stream...), chunks: chunks}
+	return c14DecodeX("n", packed, max, chunks, ops, stream)
+}
+
+func c14DecodeX(beh string, packed bool, max uint64, chunks []int, ops []string, stream []byte) string {
+	rd := &chunkReader{data: append([]byte(nil), stream...), chunks: chunks, tog: strings.Contains(beh, "t")}
+	if strings.Contains(beh, "e") {
+		rd.finalErr = errInjected
+	}
 	var d *capnp.Decoder
 	if packed {
 		d = capnp.NewPackedDecoder(rd)
@@ -436,6 +479,12 @@ func runC14(out *Out, r *Rand, tier string, replay []string) {
 				kind += "-reuse"
 			}
 			out.Case(kind, line, res, decodeClass(res), len(stream) >= 8)
+		case "decodex":
+			stream := parseBytes(f[5])
+			breadcrumb(line)
+			res := c14DecodeX(f[1], false, parseNum(f[2]), ParseInts(f[3]), strings.Split(f[4], ","), stream)
+			breadcrumb("")
+			out.Case("decodex-"+f[1], line, res, decodeClass(res), len(stream) >= 8)
 		case "hdrsize":
 			res := fmt.Sprint(capnp.VerifStreamHeaderSize(uint32(parseNum(f[1]))))
 			out.Case("hdrsize", line, res, "ok", true)
